@@ -83,6 +83,14 @@ type scenario struct {
 	variants []string
 	nHost    int // number of host->renter messages of the exchange
 	prepare  func(variant string) (*exchange, error)
+	// lenient lists caller parameter choices (well-formed and ill-formed: out of
+	// range, unaligned, duplicated, empty) that are run against a LENIENT
+	// hostile host holding the real host key: where the honest server refuses
+	// the request, it executes it verbatim (or as plausibly as it can), builds
+	// the matching proof with core's builders and countersigns. The exchange's
+	// custom operator "lenient" implements that host per RPC. No honest
+	// recording is needed (the honest exchange may fail).
+	lenient []string
 }
 
 func hostSigValid(l *rhpmitm.Lab, fc types.V2FileContract) bool {
@@ -205,8 +213,11 @@ func (f *family) runCase(sc *scenario, variant string, muts []mutation, donor *r
 			if ex.forge == nil {
 				return false
 			}
-			rev, ok := ex.forge(seen)
-			if !ok {
+			var rev types.V2FileContract
+			ok := false
+			// core's currency arithmetic panics on overflow: a forger that cannot
+			// compute the revision simply does not answer
+			if p := mon.Guard(func() { rev, ok = ex.forge(seen) }); p != nil || !ok {
 				return false
 			}
 			sig := f.lab.HostKey.SignHash(f.lab.HostNode.CM.TipState().ContractSigHash(rev))
@@ -228,6 +239,8 @@ func (f *family) runCase(sc *scenario, variant string, muts []mutation, donor *r
 		}
 		return false
 	}
+	lenientCase := len(muts) > 0 && muts[0].Op == "lenient"
+	dialsBefore, _ := f.lab.T.Dials()
 	f.lab.T.SetHook(faultHook(muts, donor, custom, ap))
 	out := monitoredCall(deadline, ex.call)
 	f.lab.T.SetHook(nil)
@@ -247,13 +260,36 @@ func (f *family) runCase(sc *scenario, variant string, muts []mutation, donor *r
 	ap.mu.Lock()
 	hit, changed, miss := ap.Hit, ap.Changed, ap.Miss
 	ap.mu.Unlock()
+	if lenientCase {
+		r.Count("lenient_host_cases:"+sc.rpc, 1)
+		dialsAfter, _ := f.lab.T.Dials()
+		switch {
+		case dialsAfter == dialsBefore:
+			// the client refused the parameters itself: nothing went out
+			r.Count("lenient_host:client_rejected_parameters_before_dialing", 1)
+			r.Distinct(cse.sig())
+		case changed > 0:
+			r.Count("lenient_host:answered_where_honest_host_differs", 1)
+		default:
+			r.Count("lenient_host:answer_equals_honest_answer", 1)
+		}
+		if out.Err == nil && out.Panic == nil {
+			r.Count("lenient_host:client_success", 1)
+		}
+		if os.Getenv("VERIF_DEBUG") != "" {
+			fmt.Printf("DEBUG lenient %s/%s dialed=%v changed=%d err=%v panic=%v\n", sc.rpc, variant, dialsAfter != dialsBefore, changed, out.Err, out.Panic)
+		}
+	}
 	switch {
+	case lenientCase && hit == 0:
 	case hit == 0:
 		r.Count("fault_site_not_reached", 1)
 	case changed > 0:
 		r.Count("faults_that_changed_the_wire", 1)
 		r.Distinct(cse.sig())
-		if strings.HasPrefix(muts[0].Op, "alt-") {
+		if lenientCase {
+			r.SetAdd("fault_ops", "lenient")
+		} else if strings.HasPrefix(muts[0].Op, "alt-") {
 			r.Count("coherent_alternative_responses:"+sc.rpc, 1)
 			r.SetAdd("fault_ops", muts[0].Op[:strings.IndexByte(muts[0].Op, ':')])
 		} else {
@@ -302,7 +338,7 @@ func (f *family) runCase(sc *scenario, variant string, muts []mutation, donor *r
 			f.dead = true
 		}
 	}
-	if len(muts) == 1 {
+	if len(muts) == 1 || lenientCase {
 		r.Sample(cse)
 	}
 }
@@ -366,13 +402,32 @@ func (f *family) run() {
 				}
 			}
 		}
+		f.runLenient(sc)
+	}
+}
+
+// runLenient runs the scenario's caller-parameter variants against the
+// lenient hostile host.
+func (f *family) runLenient(sc *scenario) {
+	if f.part != 0 {
+		return
+	}
+	var muts []mutation
+	for i := 0; i < sc.nHost; i++ {
+		muts = append(muts, mutation{Dir: "H", Msg: i, Op: "lenient"})
+	}
+	for _, v := range sc.lenient {
+		if f.dead {
+			return
+		}
+		f.runCase(sc, v, muts, nil)
 	}
 }
 
 // ---- C10 entry ----
 
 func runC10(r *mon.Run, replay string) {
-	r.Rule("fault table = RPC x host->renter message x field (reflection walk of the typed message: every byte array, currency, integer, bool, string, time, slice (first and last element), pointer, resolution type) x operator {flip low/high bit, zero, max, +1, -1, truncate, extend, duplicate, swap neighbours, swap with the same field of another recorded exchange} plus message-level faults {RPCError injection, cut before/after, half-sent message, trailing garbage, whole message of another exchange, silent host, raw sector data flip/truncate/extend/zero} plus re-signing with the real host key after altering the signed object; the table is enumerated completely (exhaustive over the table), thorough adds PRNG double mutations; a case is non-trivial when the fault changed the bytes the renter received; oracle only when the client call returned success")
+	r.Rule("fault table = RPC x host->renter message x field (reflection walk of the typed message: every byte array, currency, integer, bool, string, time, slice (first and last element), pointer, resolution type) x operator {flip low/high bit, zero, max, +1, -1, truncate, extend, duplicate, swap neighbours, swap with the same field of another recorded exchange} plus message-level faults {RPCError injection, cut before/after, half-sent message, trailing garbage, whole message of another exchange, silent host, raw sector data flip/truncate/extend/zero} plus re-signing with the real host key after altering the signed object; plus coherent alternatives built by the man-in-the-middle with core's proof builders (valid proof for another range / leaf / root set, alone and with a forged final signature); plus a LENIENT hostile host holding the real host key: for caller parameters that are well-formed and ill-formed (free index lists with duplicates in every position pattern, out of order, out of range, empty; sector-roots ranges on an empty contract, at and beyond the end, zero length, overflowing; reads with unaligned offset / unaligned end / zero length / beyond the sector; writes of unaligned or zero length; empty / repeated / unknown append lists) it executes the request exactly as received where the honest server refuses it, builds the matching proof and countersigns - the oracle then compares the result with a reference model of the CALLER's parameters (set semantics for free, the renter-known roots for sector roots, the stored bytes for read), independent of the client's own arithmetic; the table is enumerated completely (exhaustive over the table), thorough adds PRNG double mutations; a case is non-trivial when the fault changed the bytes the renter received; oracle only when the client call returned success")
 	r.Assume("core (rhp/v4 merkle, sighash, Revise* functions) is the trusted base for computing expected roots and successor revisions")
 	r.Assume("the in-repo server, EphemeralContractor and EphemeralSectorStore are the honest peer behind the man-in-the-middle; transports' own framing (siamux/quic) is not mutated")
 	r.Extra("exhaustive", true)
@@ -447,6 +502,14 @@ func runC10(r *mon.Run, replay string) {
 		r.Floor("client_returned_success", 20)
 		r.Floor("success_oracle_evaluations", 20)
 		r.Floor("returned_at_context_deadline_silent_host", 5)
+		r.Floor("lenient_host_cases:free", 12)
+		r.Floor("lenient_host_cases:roots", 10)
+		r.Floor("lenient_host_cases:read", 8)
+		r.Floor("lenient_host_cases:append", 3)
+		r.Floor("lenient_host_cases:write", 4)
+		r.Floor("lenient_host:client_success", 10)
+		r.Floor("lenient_host:answered_where_honest_host_differs", 3)
+		r.Floor("lenient_host:client_rejected_parameters_before_dialing", 10)
 	}
 }
 
@@ -535,9 +598,23 @@ func buildSectorFamily(f *family) error {
 		"A:last64":     {"A", rhp4.SectorSize - 64, 64},
 		"B:whole":      {"B", 0, rhp4.SectorSize},
 		"A:65536+8192": {"A", 65536, 8192},
+		// caller parameters for the lenient host: unaligned offset with aligned
+		// end (the client's own validation lets these through), unaligned end,
+		// zero length, beyond the sector
+		"A:32+32":      {"A", 32, 32},
+		"A:32+96":      {"A", 32, 96},
+		"A:96+32":      {"A", 96, 32},
+		"B:4100+60":    {"B", 4100, 60},
+		"A:1+4095":     {"A", 1, 4095},
+		"A:0+100":      {"A", 0, 100},
+		"A:0+0":        {"A", 0, 0},
+		"A:end-64+128": {"A", rhp4.SectorSize - 64, 128},
+		"A:end+64":     {"A", rhp4.SectorSize, 64},
+		"A:64+64":      {"A", 64, 64},
 	}
 	read := &scenario{rpc: "read", nHost: 1,
-		variants: []string{"A:0+64", "A:192+128", "B:0+64", "A:4096+4096", "A:last64", "B:whole", "A:65536+8192"}}
+		variants: []string{"A:0+64", "A:192+128", "B:0+64", "A:4096+4096", "A:last64", "B:whole", "A:65536+8192"},
+		lenient:  []string{"A:64+64", "A:32+32", "A:32+96", "A:96+32", "B:4100+60", "A:1+4095", "A:0+100", "A:0+0", "A:end-64+128", "A:end+64"}}
 	read.prepare = func(variant string) (*exchange, error) {
 		v := readVariants[variant]
 		var buf bytes.Buffer
@@ -565,7 +642,34 @@ func buildSectorFamily(f *family) error {
 		}
 		return &exchange{
 			customOps: altOps(0, "alt-range:", alts),
-			custom: func(m *rhpmitm.Msg, mu mutation, _ *recorded) bool {
+			custom: func(m *rhpmitm.Msg, mu mutation, seen *recorded) bool {
+				if mu.Op == "lenient" {
+					// the lenient host serves whatever range it is asked for with the
+					// whole leaves covering it (a range proof cannot cover less) and
+					// a valid proof for exactly those leaves, clamped to the sector
+					rq := seen.get(rhpmitm.RenterToHost, 0)
+					if rq == nil {
+						return false
+					}
+					req := rq.Obj.(*rhp4.RPCReadSectorRequest)
+					var sec *[rhp4.SectorSize]byte
+					for k, r := range roots {
+						if r == req.Root {
+							sec = sectors[k]
+						}
+					}
+					if sec == nil || req.Offset >= rhp4.SectorSize {
+						return false
+					}
+					start := req.Offset / rhp4.LeafSize
+					end := min((req.Offset+min(req.Length, rhp4.SectorSize)+rhp4.LeafSize-1)/rhp4.LeafSize, rhp4.LeavesPerSector)
+					if end <= start {
+						end = start + 1
+					}
+					data, proof := rhpmitm.SectorRangeProof(sec, start*rhp4.LeafSize, (end-start)*rhp4.LeafSize)
+					m.Err, m.Obj, m.Raw = nil, &rhp4.RPCReadSectorResponse{Proof: proof, DataLength: uint64(len(data))}, data
+					return true
+				}
 				arg, ok := strings.CutPrefix(mu.Op, "alt-range:")
 				if !ok || m.Err != nil {
 					return false
@@ -586,9 +690,19 @@ func buildSectorFamily(f *family) error {
 			},
 			oracle: func(res any, _ *recorded) []finding {
 				got := res.([]byte)
+				if v.len == 0 || v.off > rhp4.SectorSize || v.len > rhp4.SectorSize-v.off {
+					return []finding{{"read:success-for-range-outside-sector", "read reported success for an empty range / a range that is not inside the sector", map[string]any{"offset": v.off, "length": v.len, "got_len": len(got)}}}
+				}
 				want := sectors[v.sec][v.off : v.off+v.len]
 				if !bytes.Equal(got, want) {
-					d := map[string]any{"got_len": len(got), "want_len": len(want)}
+					d := map[string]any{"got_len": len(got), "want_len": len(want), "offset": v.off, "length": v.len}
+					// classify by what was observed: the writer holds the whole leaves
+					// covering an unaligned request instead of the requested bytes
+					ls, le := v.off/64*64, (v.off+v.len+63)/64*64
+					if v.off%64 != 0 && le <= rhp4.SectorSize && bytes.Equal(got, sectors[v.sec][ls:le]) {
+						d["writer_holds"] = fmt.Sprintf("sector[%d:%d] (the covering leaves)", ls, le)
+						return []finding{{"read:unaligned-offset-writes-covering-leaves", "successful read of a range with an unaligned offset wrote the whole covering leaves to the caller's writer, not sector[offset:offset+length]", d}}
+					}
 					for i := 0; i < len(got) && i < len(want); i++ {
 						if got[i] != want[i] {
 							d["first_difference_at"] = i
@@ -602,15 +716,28 @@ func buildSectorFamily(f *family) error {
 		}, nil
 	}
 
-	writeLens := map[string]uint64{"64": 64, "4160": 4160, "whole": rhp4.SectorSize}
+	writeLens := map[string]uint64{"64": 64, "4160": 4160, "whole": rhp4.SectorSize, "100": 100, "1": 1, "0": 0, "4097": 4097}
 	wdata := randomSector(f.rng)
-	write := &scenario{rpc: "write", nHost: 1, variants: []string{"64", "4160", "whole"}}
+	write := &scenario{rpc: "write", nHost: 1, variants: []string{"64", "4160", "whole"},
+		lenient: []string{"64", "100", "1", "0", "4097"}}
 	write.prepare = func(variant string) (*exchange, error) {
 		n := writeLens[variant]
 		var padded [rhp4.SectorSize]byte
 		copy(padded[:], wdata[:n])
 		want := rhp4.SectorRoot(&padded)
 		return &exchange{
+			custom: func(m *rhpmitm.Msg, mu mutation, seen *recorded) bool {
+				// the lenient host stores whatever arrives, zero-padded, and
+				// answers with the true root of that
+				rq := seen.get(rhpmitm.RenterToHost, 0)
+				if mu.Op != "lenient" || rq == nil {
+					return false
+				}
+				var got [rhp4.SectorSize]byte
+				copy(got[:], rq.Raw)
+				m.Err, m.Obj = nil, &rhp4.RPCWriteSectorResponse{Root: rhp4.SectorRoot(&got)}
+				return true
+			},
 			call: func(ctx context.Context) (any, error) {
 				res, err := rhp.RPCWriteSector(ctx, l.T, l.Prices, l.Token(), bytes.NewReader(wdata[:n]), n)
 				return res, err
@@ -807,11 +934,25 @@ func buildRootsFamily(f *family) error {
 		return err
 	}
 	_ = base
-	sc := &scenario{rpc: "roots", nHost: 1, variants: []string{"1:0,1", "1:1,3", "2:0,2", "1:0,5", "1:4,1", "2:2,1"}}
+	// an EMPTY contract (file size 0, zero Merkle root): every non-empty range is
+	// outside it, and a zero root with zero leaves "verifies" an empty proof
+	cs0, err := l.FormConfirmed(1, types.Siacoins(100), types.Siacoins(100), 400)
+	if err != nil {
+		return err
+	}
+	c0 := &contractState{lab: l, cur: cs0[0]}
+	if err := c0.resync(); err != nil {
+		return err
+	}
+	sc := &scenario{rpc: "roots", nHost: 1, variants: []string{"1:0,1", "1:1,3", "2:0,2", "1:0,5", "1:4,1", "2:2,1"},
+		lenient: []string{"1:1,2", "0:0,1", "0:0,3", "0:1,1", "0:0,0", "1:5,1", "1:3,5", "1:0,6", "1:0,0", "1:18446744073709551615,2", "1:4,18446744073709551615", "2:3,1"}}
 	sc.prepare = func(variant string) (*exchange, error) {
 		c := c1
-		if variant[0] == '2' {
+		switch variant[0] {
+		case '2':
 			c = c2
+		case '0':
+			c = c0
 		}
 		ol := parseInts(variant[2:])
 		off, n := ol[0], ol[1]
@@ -828,6 +969,7 @@ func buildRootsFamily(f *family) error {
 				alts = append(alts, fmt.Sprintf("%d,%d", o, k))
 			}
 		}
+		inRange := n > 0 && off < total && n <= total-off
 		add(off, n-1)
 		add(off, n+1)
 		add(off, total-off)
@@ -844,7 +986,45 @@ func buildRootsFamily(f *family) error {
 		})
 		return &exchange{
 			customOps: append(append(altOps(0, "alt-roots:", alts), altOps(0, "alt-roots-resign:", alts)...), resignOps...),
-			custom: chainCustom(resign, func(m *rhpmitm.Msg, mu mutation, _ *recorded) bool {
+			custom: chainCustom(resign, func(m *rhpmitm.Msg, mu mutation, seen *recorded) bool {
+				if mu.Op != "lenient" {
+					return false
+				}
+				// the lenient host: whatever range is asked for, it returns that many
+				// roots (the real ones where the contract has them, made-up ones
+				// beyond), the best proof it can build, and its genuine signature
+				// over the revision that pays for the requested length
+				rq := seen.get(rhpmitm.RenterToHost, 0)
+				if rq == nil {
+					return false
+				}
+				req := rq.Obj.(*rhp4.RPCSectorRootsRequest)
+				if req.Length > 64 {
+					req = &rhp4.RPCSectorRootsRequest{Offset: req.Offset, Length: 64, Prices: req.Prices}
+				}
+				resp := &rhp4.RPCSectorRootsResponse{}
+				for i := uint64(0); i < req.Length; i++ {
+					if j := req.Offset + i; j >= req.Offset && j < total {
+						resp.Roots = append(resp.Roots, truth[j])
+					} else {
+						resp.Roots = append(resp.Roots, types.Hash256{0xba, 0xd0, byte(i)})
+					}
+				}
+				if total > 0 && req.Offset < total {
+					end := min(total, req.Offset+max(min(req.Length, total), 1))
+					if end <= req.Offset {
+						end = total
+					}
+					resp.Proof = rhp4.BuildSectorRootsProof(truth, req.Offset, end)
+				}
+				rev, _, err := rhp4.ReviseForSectorRoots(prev.Revision, req.Prices, rq.Obj.(*rhp4.RPCSectorRootsRequest).Length)
+				if err != nil {
+					return false
+				}
+				resp.HostSignature = l.HostKey.SignHash(l.HostNode.CM.TipState().ContractSigHash(rev))
+				m.Err, m.Obj = nil, resp
+				return true
+			}, func(m *rhpmitm.Msg, mu mutation, _ *recorded) bool {
 				arg, ok := strings.CutPrefix(mu.Op, "alt-roots:")
 				re := false
 				if !ok {
@@ -874,6 +1054,9 @@ func buildRootsFamily(f *family) error {
 			oracle: func(res any, _ *recorded) []finding {
 				got := res.(rhp.RPCSectorRootsResult)
 				var fs []finding
+				if !inRange {
+					return []finding{{"roots:renter-accepted-unverifiable-roots", "sector-roots reported success for a range that is not inside the contract (nothing the host returns for it can be verified)", map[string]any{"offset": off, "length": n, "contract_sectors": total, "returned_roots": len(got.Roots)}}}
+				}
 				if !slices.Equal(got.Roots, truth[off:off+n]) {
 					fs = append(fs, finding{"roots:returned-roots-differ-from-contract", "successful sector-roots call returned roots that are not the contract's roots for the requested range", map[string]any{"got": got.Roots, "want": truth[off : off+n]}})
 				}
@@ -933,8 +1116,12 @@ func buildAppendFreeFamily(f *family) error {
 		"1:one":          {base[0]},
 		"1:three-1-miss": {base[1], missing, base[2]},
 		"2:two":          {base[3], base[4]},
+		"1:empty":        {},
+		"1:same-twice":   {base[2], base[2]},
+		"1:only-missing": {missing},
 	}
-	app := &scenario{rpc: "append", nHost: 2, variants: []string{"1:one", "1:three-1-miss", "2:two"}}
+	app := &scenario{rpc: "append", nHost: 2, variants: []string{"1:one", "1:three-1-miss", "2:two"},
+		lenient: []string{"1:one", "1:empty", "1:same-twice", "1:only-missing"}}
 	app.prepare = func(variant string) (*exchange, error) {
 		c, b := c1, base
 		if variant[0] == '2' {
@@ -986,6 +1173,35 @@ func buildAppendFreeFamily(f *family) error {
 			rev, _, err := rhp4.ReviseForAppendSectors(prev.Revision, l.Prices, resp.NewMerkleRoot, uint64(n))
 			return rev, err == nil
 		}
+		lenientAppend := func(m *rhpmitm.Msg, mu mutation, seen *recorded) bool {
+			rq := seen.get(rhpmitm.RenterToHost, 0)
+			if mu.Op != "lenient" || rq == nil {
+				return false
+			}
+			// executes the request as received (also an empty one): every root it
+			// stores is appended
+			r0 := rq.Obj.(*rhp4.RPCAppendSectorsRequest)
+			var app []types.Hash256
+			acc := make([]bool, len(r0.Sectors))
+			for i, h := range r0.Sectors {
+				if ok, _ := l.Sectors.HasSector(h); ok {
+					acc[i] = true
+					app = append(app, h)
+				}
+			}
+			sub, root := rhp4.BuildAppendProof(prevRoots, app)
+			switch m.Index {
+			case 0:
+				m.Err, m.Obj = nil, &rhp4.RPCAppendSectorsResponse{Accepted: acc, SubtreeRoots: sub, NewMerkleRoot: root}
+			case 1:
+				rev, _, err := rhp4.ReviseForAppendSectors(prev.Revision, r0.Prices, root, uint64(len(app)))
+				if err != nil {
+					return false
+				}
+				m.Err, m.Obj = nil, &rhp4.RPCAppendSectorsThirdResponse{HostSignature: l.HostKey.SignHash(l.HostNode.CM.TipState().ContractSigHash(rev))}
+			}
+			return true
+		}
 		altAppend := func(m *rhpmitm.Msg, mu mutation, _ *recorded) bool {
 			kind, ok := strings.CutPrefix(mu.Op, "alt-append:")
 			resp, isResp := m.Obj.(*rhp4.RPCAppendSectorsResponse)
@@ -1033,7 +1249,7 @@ func buildAppendFreeFamily(f *family) error {
 		}
 		altAppendOps := altOps(0, "alt-append:", []string{"prefix", "none", "other", "extra", "reordered", "declined-last"})
 		defer func() {
-			ex.custom = chainCustom(ex.custom, altAppend)
+			ex.custom = chainCustom(ex.custom, altAppend, lenientAppend)
 			ex.customOps = append(ex.customOps, altAppendOps...)
 		}()
 		ex.custom, ex.customOps = resignCustom(l, "append", 1, func(alt string) (types.V2FileContract, bool) {
@@ -1058,8 +1274,25 @@ func buildAppendFreeFamily(f *family) error {
 		"1:dup":     {2, 2, 3},
 		"1:all":     {0, 1, 2, 3, 4},
 		"2:lastone": {2},
+		// caller lists for the lenient host: duplicates in every position pattern,
+		// out of order, out of range
+		"1:nonadj":     {1, 3, 1},
+		"1:nonadj4":    {0, 2, 4, 2},
+		"1:nonadj-asc": {1, 2, 3, 1},
+		"1:alleq":      {2, 2, 2},
+		"1:adjdup":     {3, 3, 1},
+		"1:duplast":    {4, 1, 4},
+		"1:dupfirst":   {0, 3, 0},
+		"1:pairs":      {3, 0, 3, 0},
+		"1:unsorted":   {0, 4, 2},
+		"1:oob":        {7},
+		"1:oob-eq":     {5},
+		"1:oob-mixed":  {1, 9},
+		"1:empty":      {},
+		"2:nonadj":     {0, 2, 0},
 	}
-	fr := &scenario{rpc: "free", nHost: 2, variants: []string{"1:first", "1:two", "1:dup", "1:all", "2:lastone"}}
+	fr := &scenario{rpc: "free", nHost: 2, variants: []string{"1:first", "1:two", "1:dup", "1:all", "2:lastone"},
+		lenient: []string{"1:two", "1:nonadj", "1:nonadj4", "1:nonadj-asc", "1:alleq", "1:adjdup", "1:duplast", "1:dupfirst", "1:pairs", "1:unsorted", "1:oob", "1:oob-eq", "1:oob-mixed", "1:empty", "2:nonadj"}}
 	fr.prepare = func(variant string) (*exchange, error) {
 		c, b := c1, base
 		if variant[0] == '2' {
@@ -1071,15 +1304,42 @@ func buildAppendFreeFamily(f *family) error {
 		prev := c.cur
 		prevRoots := append([]types.Hash256(nil), c.roots...)
 		idx := freeSets[variant]
-		model := applyFree(prevRoots, idx)
+		// reference model: remove the SET of distinct requested indices by
+		// swap-with-tail in descending order; no model if an index is outside
+		// the contract
+		inRange := true
+		for _, i := range idx {
+			inRange = inRange && i < uint64(len(prevRoots))
+		}
+		model := prevRoots
+		if inRange {
+			model = applyFree(prevRoots, idx)
+		}
 		ndel := len(prevRoots) - len(model)
 		ex := &exchange{
 			call: func(ctx context.Context) (any, error) {
 				return rhp.RPCFreeSectors(ctx, l.T, l.Signer, l.HostNode.CM.TipState(), l.Prices, prev, idx)
 			},
-			oracle: func(res any, _ *recorded) []finding {
+			oracle: func(res any, seen *recorded) []finding {
 				got := res.(rhp.RPCFreeSectorsResult)
 				var fs []finding
+				if !inRange {
+					return []finding{{"free:success-for-index-outside-contract", "free-sectors reported success although a requested index is not inside the contract", map[string]any{"indices": idx, "contract_sectors": len(prevRoots)}}}
+				}
+				// the request the host received must name each sector at most once:
+				// a host that executes a repeated index verbatim frees more sectors
+				// than the caller asked for, and the renter signs that away
+				if rq := seen.get(rhpmitm.RenterToHost, 0); rq != nil {
+					sent := rq.Obj.(*rhp4.RPCFreeSectorsRequest).Indices
+					dup := map[uint64]bool{}
+					for _, i := range sent {
+						if dup[i] {
+							fs = append(fs, finding{"free:renter-accepted-revision-not-matching-request", "the free-sectors request that went out repeats an index and the call still succeeded: the revision the renter signed frees a different set of sectors than the caller's list", map[string]any{"caller_indices": idx, "sent_indices": sent, "returned_filesize": got.Revision.Filesize, "model_sectors": len(model)}})
+							break
+						}
+						dup[i] = true
+					}
+				}
 				if got.Revision.FileMerkleRoot != rhp4.MetaRoot(model) || got.Revision.Filesize != uint64(len(model))*rhp4.SectorSize {
 					fs = append(fs, finding{"free:new-root-or-filesize-not-list-model", "the returned revision's Merkle root / file size is not the requested free applied to the previous roots", map[string]any{"returned_root": got.Revision.FileMerkleRoot, "model_root": rhp4.MetaRoot(model), "returned_filesize": got.Revision.Filesize, "model_sectors": len(model)}})
 				}
@@ -1099,6 +1359,46 @@ func buildAppendFreeFamily(f *family) error {
 			resp := h0.Obj.(*rhp4.RPCFreeSectorsResponse)
 			rev, _, err := rhp4.ReviseForFreeSectors(prev.Revision, l.Prices, resp.NewMerkleRoot, ndel)
 			return rev, err == nil
+		}
+		lenientFree := func(m *rhpmitm.Msg, mu mutation, seen *recorded) bool {
+			rq := seen.get(rhpmitm.RenterToHost, 0)
+			if mu.Op != "lenient" || rq == nil {
+				return false
+			}
+			// executes the list exactly as received - duplicates, order and all:
+			// each index is swapped with the current tail, then the tail is
+			// trimmed; indices outside the contract are skipped
+			r0 := rq.Obj.(*rhp4.RPCFreeSectorsRequest)
+			var exec []uint64
+			for _, i := range r0.Indices {
+				if i < uint64(len(prevRoots)) {
+					exec = append(exec, i)
+				}
+			}
+			if len(exec) > len(prevRoots) {
+				exec = exec[:len(prevRoots)]
+			}
+			after := slices.Clone(prevRoots)
+			for i, n := range exec {
+				after[n] = after[len(after)-i-1]
+			}
+			after = after[:len(after)-len(exec)]
+			root := rhp4.MetaRoot(after)
+			switch m.Index {
+			case 0:
+				var th, lh []types.Hash256
+				if p := mon.Guard(func() { th, lh = rhp4.BuildFreeSectorsProof(prevRoots, exec) }); p != nil {
+					return false
+				}
+				m.Err, m.Obj = nil, &rhp4.RPCFreeSectorsResponse{OldSubtreeHashes: th, OldLeafHashes: lh, NewMerkleRoot: root}
+			case 1:
+				rev, _, err := rhp4.ReviseForFreeSectors(prev.Revision, r0.Prices, root, len(r0.Indices))
+				if err != nil {
+					return false
+				}
+				m.Err, m.Obj = nil, &rhp4.RPCFreeSectorsThirdResponse{HostSignature: l.HostKey.SignHash(l.HostNode.CM.TipState().ContractSigHash(rev))}
+			}
+			return true
 		}
 		altFree := func(m *rhpmitm.Msg, mu mutation, _ *recorded) bool {
 			kind, ok := strings.CutPrefix(mu.Op, "alt-free:")
@@ -1144,7 +1444,7 @@ func buildAppendFreeFamily(f *family) error {
 		}
 		altFreeOps := altOps(0, "alt-free:", []string{"fewer", "more", "others", "nothing"})
 		defer func() {
-			ex.custom = chainCustom(ex.custom, altFree)
+			ex.custom = chainCustom(ex.custom, altFree, lenientFree)
 			ex.customOps = append(ex.customOps, altFreeOps...)
 		}()
 		ex.custom, ex.customOps = resignCustom(l, "free", 1, func(alt string) (types.V2FileContract, bool) {
